@@ -454,6 +454,15 @@ def page_case(rng, doc, sel, tags=(), kind="structured", hist=None, flags=None, 
                 model=("typed-writer-refuses" not in doc.features) if model is None else model, tags=["pages"] + sorted(doc.features) + list(tags), kind=kind)
 
 
+def seq_error(kind, sel):
+    """mode import_seq records a page that fails and goes on; an error of the whole run after the source was loaded means
+    that the pages which WERE imported cannot be saved or read back — they are not a self-contained document (C20-f)"""
+    if kind.startswith(("build:", "reload", "reopen")):
+        return "the target document cannot be %s after the sequence %s: the imported pages are lost with the failed ones (%s)" % (
+            "built" if kind.startswith("build:") else "read back", ",".join(map(str, sel)), kind[:80])
+    return None
+
+
 def seq_case(rng, doc, sel, tags=(), hist=None, flags=None, jopts=None):
     """mode import_seq: the pages of `sel` through one Importer, going on after a page that fails.  Every page that was
     imported is judged as if it had been imported alone: equal to its source page, self-contained, shared objects copied
@@ -468,7 +477,7 @@ def seq_case(rng, doc, sel, tags=(), hist=None, flags=None, jopts=None):
 
     def chk(r, g=g, tr=tr, sel=list(sel), exp=doc.expect, jopts=dict(jopts or {})):
         if r[0] == "ERR":
-            return None
+            return seq_error(r[1], sel)
         if r[0] != "OK":
             return "importing must not %s (%s)" % (r[0], r[1][:80])
         status = r[1][0]
@@ -700,10 +709,6 @@ def generate(rng, tier):
         fail = docs.FAIL_KINDS[i % len(docs.FAIL_KINDS)]
         share = docs.SHARE_KINDS[i % len(docs.SHARE_KINDS)]
         doc = docs.gen_doc(rng, npages=rng.choice([2, 2, 3, 4]))
-        while "typed-writer-refuses" in doc.features:
-            # (a value the typed writers refuse fails in `fulfill`: the reserved id stays an open promise and the target
-            #  cannot be saved at all — nothing to judge; reported as a defect of the unchanged library)
-            doc = docs.gen_doc(rng, npages=rng.choice([2, 2, 3, 4]))
         a, b = docs.plant_failing_share(doc, rng, fail, share)
         k = len(doc.pages)
         others = [x for x in range(k) if x not in (a, b)]
@@ -775,6 +780,37 @@ def witness_case(f, c):
             gs = G.graph_of_dump(R["src_objs"])
             ts = G.of_canon(R["src_trailer"])
             return G.judge_import(gs, ts, sel, r[1], content_tokens=True)
+        c.check = chk
+        c.model = False
+        if f.get("must_succeed"):
+            c.check = lambda r, chk=chk: ("the import must succeed: %s %s" % (r[0], r[1][:120])) if r[0] != "OK" else chk(r)
+    elif c.mode == "import_seq":
+        # field `must_import` of the finding: indices into the sequence of the pages that import alone (known by construction)
+        sel = [int(x) for x in c.fields[2].split(b",")]
+        c.fields[3] = b"s"
+        must = f.get("must_import", [])
+
+        def chk(r, sel=sel, must=must):
+            if r[0] == "ERR":
+                return seq_error(r[1], sel) or ("the sequence must run: ERR %s" % r[1][:120] if must else None)
+            if r[0] != "OK":
+                return "importing must not %s (%s)" % (r[0], r[1][:80])
+            status = r[1][0]
+            if len(status) != len(sel):
+                return "harness: %d page states for %d pages" % (len(status), len(sel))
+            for k in must:
+                if status[k] != ord("k"):
+                    return "page %d (position %d of the sequence %s, states %s) imports alone but failed here" % (
+                        sel[k], k, ",".join(map(str, sel)), status.decode())
+            done = [p for p, x in zip(sel, status) if x == ord("k")]
+            if not done:
+                return None
+            n = int(r[1][1])
+            rest = r[1][1:]
+            R = G.split_import_result(rest)
+            gs = G.graph_of_dump(R["src_objs"])
+            ts = G.of_canon(R["src_trailer"])
+            return G.judge_import(gs, ts, done, rest, content_tokens=True, page_entries=True)
         c.check = chk
         c.model = False
     return c
